@@ -7,12 +7,49 @@ from ..lib import need, calls_in
 PF = 'user_scripts.parse_folder'
 
 
+def roles(repo):
+    """Roles in main(): the computator callable, the task list, the id list and the image list (no reliance on local names)."""
+    fi = repo.func(PF + ':main')
+    sm = [c for c in ast.walk(fi.node) if isinstance(c, ast.Call) and isinstance(c.func, ast.Attribute) and c.func.attr in ('starmap', 'map', 'imap', 'imap_unordered', 'starmap_async')
+          and len(c.args) >= 2 and isinstance(c.args[0], ast.Name) and isinstance(c.args[1], ast.Name)]
+    need(sm, 'main(): no pool.starmap(callable, tasks)')
+    comp, tasks = sm[0].args[0].id, sm[0].args[1].id
+    direct = [c for c in ast.walk(fi.node) if isinstance(c, ast.Call) and isinstance(c.func, ast.Name) and c.func.id == comp]
+    need(direct, 'main(): the computator is never called directly (sequential branch)')
+    # the loop around the direct call: for index, (a, b) in enumerate(zip(A, B))
+    pm = {}
+    for p_ in ast.walk(fi.node):
+        for ch in ast.iter_child_nodes(p_):
+            pm[ch] = p_
+    n = direct[0]
+    loop = None
+    while n in pm:
+        n = pm[n]
+        if isinstance(n, ast.For):
+            loop = n
+            break
+    need(loop is not None, 'main(): sequential computator call is not inside a loop')
+    z = [c for c in ast.walk(loop.iter) if isinstance(c, ast.Call) and dotted(c.func) == 'zip' and len(c.args) == 2 and all(isinstance(a, ast.Name) for a in c.args)]
+    need(z, 'main(): dispatch loop does not zip two lists')
+    tvars = [t for t in ast.walk(loop.target) if isinstance(t, ast.Tuple) and len(t.elts) == 2 and all(isinstance(e, ast.Name) for e in t.elts)]
+    need(tvars, 'main(): dispatch loop target is not (id, image)')
+    cc = repo.func(PF + ':Computator.__call__')
+    cparams = [p_ for p_ in cc.params if p_ != 'self']
+    id_pos = next((i for i, p_ in enumerate(cparams) if 'id' in p_ and 'ids' not in p_), 1)
+    id_arg = direct[0].args[id_pos]
+    need(isinstance(id_arg, ast.Name), 'main(): id argument of the computator is not a name')
+    names = [e.id for e in tvars[-1].elts]
+    need(id_arg.id in names, 'main(): id argument does not come from the dispatch loop')
+    k = names.index(id_arg.id)
+    ids, imgs = z[0].args[k].id, z[0].args[1 - k].id
+    return fi, comp, tasks, ids, imgs, sm[0], direct[0]
+
+
 def pair_filters(repo, chk, rule):
     """ids_to_process and images_to_process stay aligned: they are filtered by one predicate, and the image filter
     is zipped with the same version of the id list that the id filter consumes."""
-    fi = repo.func(PF + ':main')
+    fi, comp, tasks, ids, imgs, _, _ = roles(repo)
     flow = fi.flow
-    ids, imgs = 'ids_to_process', 'images_to_process'
     filt = {}
     for s in walk_shallow(fi.node):
         if isinstance(s, ast.Assign) and isinstance(s.targets[0], ast.Name) and s.targets[0].id in (ids, imgs) and isinstance(s.value, ast.ListComp) \
@@ -55,7 +92,8 @@ def pair_filters(repo, chk, rule):
            construct='filter order')
     # --skipp-missing-xml block: one condition guards both appends
     apps = [c for c in ast.walk(fi.node) if isinstance(c, ast.Call) and isinstance(c.func, ast.Attribute) and c.func.attr == 'append'
-            and isinstance(c.func.value, ast.Name) and c.func.value.id.startswith('filtered_')]
+            and isinstance(c.func.value, ast.Name) and c.func.value.id not in (tasks, 'results') and
+            any(isinstance(x, ast.Name) for x in c.args) and _in_zip_loop(fi, c, ids, imgs)]
     if apps:
         pm = {}
         for p in ast.walk(fi.node):
@@ -75,31 +113,58 @@ def pair_filters(repo, chk, rule):
 
 def sibling_dispatch(repo, chk, rule):
     """Sequential and pooled execution make the same call with the same arguments."""
-    fi = repo.func(PF + ':main')
+    fi, comp, tasks, ids, imgs, starmap, direct = roles(repo)
     tuples = []
     # pooled: tasks.append((a, b, c, d)) ; sequential: computator(a, b, c, d)
     for c in ast.walk(fi.node):
         if isinstance(c, ast.Call) and isinstance(c.func, ast.Attribute) and c.func.attr == 'append' and c.args and isinstance(c.args[0], ast.Tuple) \
-                and isinstance(c.func.value, ast.Name) and c.func.value.id == 'tasks':
+                and isinstance(c.func.value, ast.Name) and c.func.value.id == tasks:
             tuples.append(('pool', [' '.join(src(a).split()) for a in c.args[0].elts], c))
-        if isinstance(c, ast.Call) and isinstance(c.func, ast.Name) and c.func.id == 'computator':
+        if isinstance(c, ast.Call) and isinstance(c.func, ast.Name) and c.func.id == comp:
             tuples.append(('seq', [' '.join(src(a).split()) for a in c.args], c))
     need(len(tuples) == 2, 'expected one pooled task tuple and one sequential computator call, found %d' % len(tuples))
     ok = tuples[0][1] == tuples[1][1]
     chk.ob(rule, fi, tuples[1][2], 'sequential and pooled branches call computator with the same arguments', ok,
            '%s vs %s' % (tuples[0][1], tuples[1][1]), construct='dispatch arguments')
     sm = [c for c in ast.walk(fi.node) if isinstance(c, ast.Call) and isinstance(c.func, ast.Attribute) and c.func.attr in ('starmap', 'map', 'imap', 'imap_unordered', 'starmap_async')]
-    ok = bool(sm) and sm[0].func.attr == 'starmap' and isinstance(sm[0].args[0], ast.Name) and sm[0].args[0].id == 'computator'
+    ok = bool(sm) and sm[0].func.attr == 'starmap' and isinstance(sm[0].args[0], ast.Name) and sm[0].args[0].id == comp
     chk.ob(rule, fi, sm[0] if sm else fi.node, 'the pool runs the same computator over the task tuples, results in task order (starmap)', ok,
            construct='pool starmap')
     # both loops enumerate zip(ids, images) identically
     loops = [l for l in ast.walk(fi.node) if isinstance(l, ast.For) and isinstance(l.iter, ast.Call) and dotted(l.iter.func) == 'enumerate'
-             and 'zip(ids_to_process, images_to_process)' in src(l.iter)]
-    chk.ob(rule, fi, loops[0] if loops else fi.node, 'both branches enumerate zip(ids_to_process, images_to_process)', len(loops) == 2,
+             and 'zip(%s, %s)' % (ids, imgs) in src(l.iter)]
+    chk.ob(rule, fi, loops[0] if loops else fi.node, 'both branches enumerate zip(ids, images)', len(loops) == 2,
            construct='dispatch loops')
     # Computator.__call__ unpacks the same order
     cc = repo.func(PF + ':Computator.__call__')
     want = [a for a in cc.params if a != 'self']
     got = tuples[1][1]
-    okp = len(want) == len(got) and ('image' in want[0] and 'image' in got[0]) and ('id' in want[1] and 'id' in got[1]) and ('index' in want[2] and 'index' in got[2])
+    # roles of the loop variables of the sequential dispatch loop
+    pm = {}
+    for p_ in ast.walk(fi.node):
+        for ch in ast.iter_child_nodes(p_):
+            pm[ch] = p_
+    n = direct
+    loop = None
+    while n in pm:
+        n = pm[n]
+        if isinstance(n, ast.For):
+            loop = n
+            break
+    okp = False
+    if loop is not None and isinstance(loop.target, ast.Tuple) and len(loop.target.elts) == 2 and isinstance(loop.target.elts[0], ast.Name) \
+            and isinstance(loop.target.elts[1], ast.Tuple):
+        idx = loop.target.elts[0].id
+        z = [c for c in ast.walk(loop.iter) if isinstance(c, ast.Call) and dotted(c.func) == 'zip'][0]
+        pair = [e.id for e in loop.target.elts[1].elts]
+        by_list = {z.args[i].id: pair[i] for i in range(2)}
+        expect = [by_list[imgs], by_list[ids], idx, 'len(%s)' % ids]
+        okp = got == expect and len(want) == 4 and 'image' in want[0] and 'id' in want[1] and 'index' in want[2] and 'count' in want[3]
     chk.ob(rule, cc, cc.node, 'argument order matches Computator.__call__%s' % want, okp, construct='computator parameter order')
+
+
+def _in_zip_loop(fi, call, ids, imgs):
+    for l in ast.walk(fi.node):
+        if isinstance(l, ast.For) and any(x is call for x in ast.walk(l)) and 'zip(%s, %s)' % (ids, imgs) in src(l.iter) and not ('enumerate' in src(l.iter)):
+            return True
+    return False
